@@ -23,11 +23,20 @@ def rendezvous(ck):
             o = dict(obs)
             o.update({'outcome': 'rendezvous-failed', 'exit_code': None, 'fail': [], 'gated': True, 'stderr_tail': ''})
             found.append((o, V['C17']))
+    for i in range(1 if ck.tier == 'quick' else 4):
+        obs, V = sysrun.probe_starvation(random.Random(ck.rng.getrandbits(32)), tag='C17ps%d' % i)
+        ck.count(('probes', obs['probes'], i), nontrivial=True, sample=obs)
+        ck.tally('probe_starvation')
+        if 'C17' in V:
+            found.append(({'targets': {'note': '%d targets with input `cmd_stdout: sleep 3; echo v` + quick0 <- quick1 <- quick2' % obs['probes']},
+                           'roots': ['probe*', 'quick2'], 'fail': [], 'gated': False, 'trace': [], 'outcome': 'slow', 'exit_code': None,
+                           'stderr_tail': '', 'observed': obs}, V['C17']))
     return found
 
 
 def run(ck):
-    engine.check_engine(ck, 'C17', actor.proj(keep_out=lambda o: False, keys=('starts',)), 'script starts per event',
+    engine.check_engine(ck, 'C17', actor.proj(keep_out=lambda o: '<-Rq:' in o, keys=('starts',)),
+                        'script starts + requests sent to dependencies per event',
                         n_sys_quick=10, fail_p=0.05, gated_p=0.9, extra=rendezvous)
 
 
